@@ -185,6 +185,9 @@ Deep ==
     [k |-> "seq", tags |-> <<>>, comps |-> << Comp("id", Sc("bool", <<>>), "req"),
           CompD("routes", [k |-> "seqof", tags |-> <<>>, of |-> Route],
                 [es |-> << [cs |-> << [p |-> TRUE, v |-> I(1)], [p |-> TRUE, v |-> [b |-> TRUE]] >>] >>]) >>],
+    \* repeated explicitly tagged strings: with a chunk size some members are segmented (constructed) and some are not
+    [k |-> "seqof", tags |-> <<>>, of |-> Sc("octs", <<CtxE(5)>>)],
+    [k |-> "seqof", tags |-> <<>>, of |-> Sc("utf8", <<CtxE(40)>>)],
     \* OPTIONAL members of type NULL (whose Python image is None), present and absent
     [k |-> "seq", tags |-> <<>>, comps |-> << Comp("a", Sc("int", <<>>), "req"), Comp("n", Sc("null", <<>>), "opt"),
                                               Comp("m", Sc("null", <<Ctx(0)>>), "opt"), Comp("o", Sc("octs", <<>>), "req") >>],
